@@ -238,3 +238,65 @@ Qed.
 
 Example render_example : render (-2) 15 = [45; 50; 110; 43; 49; 53]%N.   (* "-2n+15" *)
 Proof. vm_compute. reflexivity. Qed.
+
+(* ---- the short forms:  B alone,  An,  [sign] n [(+|-) B] ---- *)
+Lemma run_app s cs1 : forall cs2 s', anb_run s cs1 = inl s' -> anb_run s (cs1 ++ cs2) = anb_run s' cs2.
+Proof.
+  revert s. induction cs1 as [|c cs1 IH]; intros s cs2 s' H; cbn [app anb_run] in *.
+  - injection H as <-. reflexivity.
+  - destruct (anb_step s c) as [s1|e]; [apply IH; assumption | discriminate].
+Qed.
+
+Theorem parse_an_b_b_only sa d ds :
+  Forall isd (d :: ds) -> dval (d :: ds) 0 <= i32_max ->
+  parse_an_b (osgnc sa ++ map dch (d :: ds)) = AnbOk 0 (dval (d :: ds) 0 * osgnz sa).
+Proof.
+  intros Hd Hmax. unfold parse_an_b.
+  rewrite <- (app_nil_r (map dch (d :: ds))).
+  rewrite (run_number_first anb_init sa d ds []) by (try reflexivity; assumption).
+  cbn [anb_run st num sign step_size anb_init].
+  assert (H0 : 0 <= dval (d :: ds) 0) by (apply (dval_ge (d :: ds) 0 Hd); lia).
+  rewrite i32_ok_range by (unfold i32_min, i32_max in *; destruct sa as [[|]|]; cbn [osgnz sgnz]; lia).
+  reflexivity.
+Qed.
+
+Theorem parse_an_b_an_only sa d ds :
+  Forall isd (d :: ds) -> dval (d :: ds) 0 <= i32_max ->
+  parse_an_b (osgnc sa ++ map dch (d :: ds) ++ [110%N]) = AnbOk (osgnz sa * dval (d :: ds) 0) 0.
+Proof.
+  intros Hd Hmax. unfold parse_an_b.
+  rewrite (run_number_first anb_init sa d ds [110%N]) by (try reflexivity; assumption).
+  assert (H0 : 0 <= dval (d :: ds) 0) by (apply (dval_ge (d :: ds) 0 Hd); lia).
+  cbn [anb_run]. cbn [anb_init step_size].
+  rewrite step_num_n by (unfold i32_min, i32_max in *; destruct sa as [[|]|]; cbn [osgnz sgnz]; lia).
+  cbn [st num sign step_size]. destruct sa as [[|]|]; reflexivity.
+Qed.
+
+Theorem parse_an_b_n_b sa sb d ds :
+  Forall isd (d :: ds) -> dval (d :: ds) 0 <= i32_max ->
+  parse_an_b (osgnc sa ++ [110%N] ++ [sgnc sb] ++ map dch (d :: ds)) = AnbOk (osgnz sa) (dval (d :: ds) 0 * sgnz sb).
+Proof.
+  intros Hd Hmax. unfold parse_an_b.
+  inversion Hd as [|? ? Hd0 Hds]; subst.
+  assert (Hd00 : 0 <= d) by (unfold isd in Hd0; lia).
+  assert (H0 : 0 <= dval (d :: ds) 0) by (apply (dval_ge (d :: ds) 0 Hd); lia).
+  assert (EB : dval (d :: ds) 0 = dval ds d) by reflexivity.
+  assert (Hpre : anb_run anb_init (osgnc sa ++ [110%N] ++ [sgnc sb])
+                 = inl {| st := SSign true; step_size := osgnz sa; sign := sgnz sb; num := 0 |})
+    by (destruct sa as [[|]|], sb; reflexivity).
+  replace (osgnc sa ++ [110%N] ++ [sgnc sb] ++ map dch (d :: ds))
+    with ((osgnc sa ++ [110%N] ++ [sgnc sb]) ++ map dch (d :: ds)) by (rewrite <- !app_assoc; reflexivity).
+  rewrite (run_app _ _ _ _ Hpre).
+  cbn [map anb_run]. rewrite step_first_digit_sign by assumption.
+  rewrite <- (app_nil_r (map dch ds)). rewrite run_digits by (try assumption; rewrite <- EB; assumption).
+  cbn [anb_run st num sign step_size]. rewrite <- EB.
+  rewrite i32_ok_range by (unfold i32_min, i32_max in *; destruct sb; cbn [sgnz]; lia).
+  reflexivity.
+Qed.
+
+Theorem parse_an_b_n_only sa : parse_an_b (osgnc sa ++ [110%N]) = AnbOk (osgnz sa) 0.
+Proof. destruct sa as [[|]|]; reflexivity. Qed.
+
+(* the CSS keywords odd / even are not part of this notation: "odd" is an illegal-character error *)
+Example odd_is_not_parsed_here : parse_an_b [111; 100; 100]%N = AnbIllegal.
+Proof. vm_compute. reflexivity. Qed.
